@@ -124,6 +124,9 @@ def main(payload):
     res = []
     for c in payload:
         try:
+            if c.get('before'):
+                # another problem solved first in the same process (results discarded): the next result must not depend on it
+                solve(c['before'], [c['before']['xd0'] + 0.1], c['t'], c.get('kind', 'ig'))
             if c['what'] == 'rh':
                 res.append(check_rh(c['params'], c['t']))
             elif c['what'] == 'cons':
